@@ -36,7 +36,7 @@ ASSUMPTIONS = ['Series form goes through pdextract, which only takes a seed: '
 
 F_ORDER_SAMPLE = 'F-rexpy-sample-depends-on-order'
 
-VARIANTS = ['asis', 'perm', 'dict', 'repeat', 'series']
+VARIANTS = ['asis', 'perm', 'dict', 'repeat', 'series', 'dict0']
 
 
 def set_strategy(tier):
@@ -126,14 +126,21 @@ def variant_input(xs, variant, key):
         return list(xs)
     if variant == 'perm':
         return det_perm(xs, key)
-    if variant == 'dict':
+    if variant in ('dict', 'dict0'):
         c = Counter()
         order = []
         for x in det_perm(xs, key):
             if x not in c:
                 order.append(x)
             c[x] += 1
-        return {x: c[x] for x in order}
+        d = {x: c[x] for x in order}
+        if variant == 'dict0':
+            # the same multiset, written with some multiplicity-0 entries
+            zs = [z for (i, z) in enumerate(G.ZERO_KEYS)
+                  if z not in c and ((key >> (i % 9)) & 1 or i == key % 9)]
+            d = dict([(z, 0) for z in zs[:1]] + list(d.items())
+                     + [(z, 0) for z in zs[1:]])
+        return d
     if variant == 'repeat':
         reps = [x for (i, x) in enumerate(xs) if (key >> (i % 10)) & 1]
         return list(xs) + (reps or list(xs[:1]))
